@@ -3,8 +3,10 @@ ID = 'C07'
 FUNCTIONS = [('devices', 'DM'), ('devices', 'FIBER'), ('typing', 'electrical_signal.__call__'), ('typing', 'electrical_signal.w'),
              ('typing', 'electrical_signal.__mul__')]
 BOUNDS = {'lengths': 'N in {2,3,4} (quick) / {2,3,4,5,6,8} (thorough), exact DFT; one and two polarisations',
+          'lengths beyond the exact DFT': 'DM energy conservation and layout at N in {13, 16} (thorough: 13, 16, 17, 26, 32, 64): FFT pair in contract mode '
+                                         '(fresh outputs + Parseval, each proved for the exact DFT in C02), per-bin unit-modulus lemma, scalar composition',
           'values': 'every complex field sample, D, D1, D2, beta_2, beta_3 (either sign), alpha >= 0, L, L1, L2 > 0 and the slot rate R symbolic'}
-OUTSIDE = ['other lengths', 'FIBER has no retH option (the retH clause applies to DM)', 'floating-point rounding',
+OUTSIDE = ['other lengths (for the sample-exact clauses; the energy clause of DM is decided at larger N in contract mode)', 'FIBER has no retH option (the retH clause applies to DM)', 'floating-point rounding',
            'the noise component: DM and FIBER pass input.noise through without filtering it (the property speaks of the field)']
 ASSUMPTIONS = ['cos/sin/exp axioms: Pythagoras, evenness/oddness, angle addition and exp(a)exp(b)=exp(a+b) for the arguments that occur',
                'power law: the library converts dB/km to 1/km with the constant 4.343; the check requires the exponent to lie within '
@@ -75,6 +77,52 @@ def scen_dm(env, cfg):
     except TypeError:
         ok = False
     env.check('non-optical input raises TypeError', not ok)
+
+
+def scen_dm_energy(env, cfg):
+    """DM conserves energy at record lengths beyond the exact-DFT bound (any N: 13, 16, 26, ...).  The FFT pair runs in contract mode
+    (fresh outputs carrying Parseval only, proved for the exact DFT in C02); the per-bin lemma |X_k*H_k|^2 = |X_k|^2 is decided for
+    every bin, then a composition over scalars gives E_out = E_in."""
+    D_ = env.lib.devices
+    n, pol = cfg['n'], cfg['pol']
+    fs = _setup(env)
+    x, S = _field(env, n, pol)
+    D = env.real('D', -200, 200)
+    if env.symbolic:
+        from vf.core import ctx
+        ctx().limits['fft_mode'] = 'contract'
+    y = D_.DM(x, D)
+    ys = env.rows(y.signal)
+    env.check('length and polarisation layout preserved', y.signal.shape == x.signal.shape and y.n_pol == pol)
+    if not env.symbolic:
+        for p, (eo, ei) in enumerate(zip(_energy(env, ys), _energy(env, S))):
+            env.check(f'DM conserves energy exactly (polarisation {p})', env.eq(eo, ei, scale=300 * n))
+        return
+    import z3
+    from vf.core import SB
+    ios = [e[1] for e in env.events('fft-io')]
+    ok = (len(ios) == 2 and not ios[0][0] and ios[1][0] and len(ios[0][1]) == pol and len(ios[1][1]) == pol and
+          all(len(r) == n for r in ios[0][1]) and all(len(r) == n for r in ios[1][1]))
+    if not ok:
+        # some other transform structure (padding, cropping, extra passes): no lemma chain applies; the energy clause is posted as it
+        # stands over the contract facts, steered (replay only) to a wide-band, strongly dispersive corner with energy in the field
+        Rr = fs / 2
+        steer = [(Rr >= 9e10).t, z3.Or((D >= 150).t, (D <= -150).t)] + [(env.re(S[0][k]) >= 1).t for k in range(min(n, 4))]
+        for p, (eo, ei) in enumerate(zip(_energy(env, ys), _energy(env, S))):
+            cnd = env.eq(eo, ei, scale=300 * n)
+            if isinstance(cnd, SB):
+                cnd = SB(cnd.t, cnd.rt, z3.And(z3.Not(cnd.t), *steer))
+            env.check(f'DM conserves energy exactly (polarisation {p})', cnd)
+        return
+    fin, fout, iin, iout = ios[0][1], ios[0][2], ios[1][1], ios[1][2]
+    for p in range(pol):
+        env.check(f'pol {p}: the forward transform is taken of the input field itself', env.And([env.eq(a, b, scale=10) for a, b in zip(fin[p], S[p])]))
+        env.check(f'pol {p}: every bin is multiplied by a unit-modulus factor, |X_k*H_k|^2 == |X_k|^2',
+                  env.And([env.eq(env.abs2(a), env.abs2(b), scale=100) for a, b in zip(iin[p], fout[p])]))
+        env.check(f'pol {p}: the output is the inverse transform, sample for sample', env.And([env.eq(a, b, scale=10) for a, b in zip(ys[p], iout[p])]))
+        Ein, EX, EY, Eout = (z3.Real(f'{nm}{p}') for nm in ('Ein', 'EX', 'EY', 'Eout'))
+        hyp = z3.And(EX == n * Ein, EY == EX, Eout * n == EY)          # Parseval in, unit-modulus bins, Parseval out
+        env.check(f'DM conserves energy exactly (polarisation {p})', SB(z3.Implies(hyp, Eout == Ein)))
 
 
 def scen_dm_compose(env, cfg):
@@ -179,4 +227,7 @@ def configs(tier):
                 out.append((f'dm-compose-n{n}-pol{pol}', scen_dm_compose, dict(n=n, pol=pol), {}))
             out.append((f'fiber-vs-dm-n{n}-pol{pol}', scen_fiber_dm, dict(n=n, pol=pol), {}))
             out.append((f'fiber-filter-n{n}-pol{pol}', scen_fiber_filter, dict(n=n, pol=pol, spans=(n <= 3 and pol == 1)), {}))
+    # record lengths beyond the exact-DFT bound (one with a prime factor >= 13, one power of two, one composite): contract-mode FFT
+    for n, pol in (((13, 1), (16, 2)) if q else ((13, 1), (13, 2), (16, 2), (17, 1), (26, 1), (32, 1), (64, 1))):
+        out.append((f'dm-energy-contract-n{n}-pol{pol}', scen_dm_energy, dict(n=n, pol=pol), {'validate': 1}))
     return out
